@@ -372,6 +372,7 @@ def run_shard(ctx, shard):
         for T in CONVENIENCE:
             rebuild_and_copy(ctx, T)
         convenience_types(ctx)
+        convenience_compat(ctx)
 
 
 def convenience_types(ctx):
@@ -391,6 +392,34 @@ def convenience_types(ctx):
                 ctx.ok('copy-verdicts')
 
 
+def convenience_compat(ctx):
+    """compatibility verdicts involving the convenience types: a verdict (compatible or a bad-value error), never another exception"""
+    from frappy.datatypes import StatusType, LimitsType, FloatRange, IntRange, BoolType, StringType, BLOBType, ArrayOf, TupleOf, StructOf, EnumType
+    from frappy.errors import BadValueError
+    conv = {'status': StatusType('IDLE', 'BUSY', 'ERROR'), 'limits': LimitsType(FloatRange(0, 10))}
+    plain = {'double': FloatRange(), 'int': IntRange(0, 5), 'bool': BoolType(), 'string': StringType(), 'blob': BLOBType(0, 5),
+             'array': ArrayOf(BoolType(), 0, 3), 'tuple': TupleOf(IntRange(), StringType()), 'struct': StructOf(a=IntRange()),
+             'enum': EnumType('e', a=1, b=2), 'tuple2': TupleOf(EnumType('e', IDLE=100, BUSY=300, ERROR=400), StringType())}
+    for cname, c in conv.items():
+        for pname, q in plain.items():
+            for a, b, tag in ((c, q, f'{cname}->{pname}'), (q, c, f'{pname}->{cname}')):
+                ctx.ev()
+                try:
+                    a.compatible(b)
+                    ctx.ok('convenience-compat-verdict')
+                except BadValueError:
+                    ctx.ok('convenience-compat-verdict')
+                except Exception as e:   # noqa
+                    ctx.finding(f'compat:raises:{type(e).__name__}:{tag.split("->")[1] if tag.startswith(cname) else tag.split("->")[0]}-vs-{cname}',
+                                {'kind': 'convenience'}, f'{tag}: {e!r}')
+        ctx.ev()
+        try:
+            hasattr(c, 'no_such_attribute')
+            ctx.ok('convenience-hasattr')
+        except Exception as e:   # noqa
+            ctx.finding(f'convenience:hasattr-raises:{type(e).__name__}:{cname}', {'kind': 'convenience'}, repr(e))
+
+
 def run_case(ctx, case):
     if case['kind'] == 'tree':
         rebuild_and_copy(ctx, case['T'])
@@ -398,3 +427,4 @@ def run_case(ctx, case):
         pair_check(ctx, case['TA'], case['TB'], case.get('how', '?'))
     elif case['kind'] == 'convenience':
         convenience_types(ctx)
+        convenience_compat(ctx)
